@@ -95,4 +95,22 @@ let () =
        done with End_of_file -> ());
       close_in ic
   | [_; "map"; img] -> map_one img
+  | [_; "hdr"; lst] ->
+      (* one hex buffer per line: the specification's reading of the header *)
+      let ic = open_in lst in
+      (try while true do
+         let l = String.trim (input_line ic) in
+         let n = String.length l / 2 in
+         let b = Bytes.create n in
+         for i = 0 to n - 1 do Bytes.set b i (Char.chr (int_of_string ("0x" ^ String.sub l (2*i) 2))) done;
+         let rd = rd_of b in
+         let h = parse_hdr rd in
+         Printf.printf "feat=%d sup=%d magic=%s v=%s cb=%s size=%s ro=%s l1=%s/%s rt=%s/%s crypt=%s incompat=%s ct=%s hl=%s boff=%s blen=%s snap=%s\n"
+           (if hdr_features_ok h then 1 else 0) (if hdr_supported h then 1 else 0) (string_of_n h.h_magic) (string_of_n h.h_version) (string_of_n h.h_cb)
+           (string_of_n h.h_size) (string_of_n h.h_ro) (string_of_n h.h_l1_off) (string_of_n h.h_l1_size)
+           (string_of_n h.h_rt_off) (string_of_n h.h_rt_clusters) (string_of_n h.h_crypt) (string_of_n h.h_incompat)
+           (string_of_n h.h_comp_type) (string_of_n h.h_len) (string_of_n h.h_backing_off) (string_of_n h.h_backing_len)
+           (string_of_n h.h_nb_snap)
+       done with End_of_file -> ());
+      close_in ic
   | _ -> prerr_endline "usage: qdrv check <list> | map <image>"; exit 2
